@@ -110,6 +110,7 @@ def run_decode(code, dec, e, fail):
         before = dict(correction)
         new_signs = orig(signs, correction, *args, **kw)
         state['steps'] += 1
+        state['last_signs'] = np.asarray(new_signs).astype(np.int64) % 2
         if not state['ok']:
             return new_signs
         bad_keys = [k for k in correction if tuple(k) not in qset]
@@ -148,6 +149,20 @@ def run_decode(code, dec, e, fail):
         fail('correction_Z_only', 'returned correction has a non-zero X part')
     tot = (np.asarray(e).astype(np.int64) + c) % 2
     resid = ((H[:, :n] @ tot[n:] + H[:, n:] @ tot[:n]) % 2) * faces
+    # "whenever the automaton stops with no excitations left the face
+    # syndrome of error+correction is zero" - whatever the budget was
+    if state['ok']:
+        if 'last_signs' in state:
+            stopped_clear = not state['last_signs'].any()
+        else:
+            stopped_clear = not (np.asarray(s).astype(np.int64) % 2 * faces).any()
+        state['stopped_clear'] = stopped_clear
+        if stopped_clear and resid.any():
+            d = np.nonzero(resid)[0]
+            fail('cleared_automaton_leaves_zero_face_syndrome',
+                 f'the automaton stopped after {state["steps"]} sweep steps with no tracked '
+                 f'excitation left, but error + returned correction violates faces '
+                 f'{[tuple(code.stabilizer_coordinates[i]) for i in d[:4]]}')
     return state, tie['n'], not resid.any()
 
 
@@ -177,6 +192,7 @@ def automaton_case(case, fail):
             e[n:] = (rng.random(n) < case['rate']).astype(np.uint8)
             errs.append(e)
     before = len(errs)
+    last_sweep = [0]
     for e in errs:
         nf = [0]
 
@@ -187,11 +203,14 @@ def automaton_case(case, fail):
         state, ties, cleared = run_decode(code, dec, e, fail2)
         evals += max(1, state['steps'])
         terminated += cleared
+        if DECODER_FOR[cls] == 'SweepDecoder3D' and state.get('stopped_clear') and \
+                state['steps'] == case.get('budget', 32) * max(size):
+            last_sweep[0] += 1
         if state['steps'] >= 2 and ties > 0:
             nt = True
         if nf[0]:
             break
-    return evals, nt, terminated, before
+    return evals, nt, terminated, before, last_sweep[0]
 
 
 class _Fail:
@@ -213,7 +232,9 @@ def eval_case(case):
     if case['kind'] == 'geometry':
         evals, nt_keys = geometry_case(case, fail)
     else:
-        evals, nt, terminated, total = automaton_case(case, fail)
+        evals, nt, terminated, total, last_sweep = automaton_case(case, fail)
+        if last_sweep:
+            labels.append('cleared-on-last-permitted-sweep')
         labels.append('cleared-all' if terminated == total else 'some-not-cleared')
         labels.append(case['errors'])
     for f in fail.items:
@@ -235,7 +256,7 @@ def random_runs(draw, max_L=4, n_errors=6):
     return {'kind': 'automaton', 'cls': cls, 'size': list(size), 'errors': 'random',
             'rate': draw(st.sampled_from([0.02, 0.05, 0.1, 0.2])),
             'n_errors': n_errors, 'seed': draw(st.integers(0, 4)),
-            'budget': draw(st.sampled_from([2, 4, 32])),
+            'budget': draw(st.sampled_from([1, 2, 3, 4, 32])),
             'rseed': draw(st.integers(0, 2**30))}
 
 
@@ -262,7 +283,8 @@ def run(ctx):
             for lo in range(0, total, step):
                 cases.append({'kind': 'automaton', 'cls': cls, 'size': list(size),
                               'errors': 'weight12', 'lo': lo, 'hi': min(total, lo + step),
-                              'seed': ctx.seed % 5, 'budget': 3})
+                              'seed': ctx.seed % 5,
+                              'budget': (1, 3, 2)[(lo // step) % 3]})
     ctx.exhaustive = True
     ctx.run_cases(cases, chunk=1)
     ctx.run_hypothesis('random_runs', 240 if quick else 4000,
